@@ -9,6 +9,12 @@ pub mod spec;
 #[cfg(kani)]
 pub mod models;
 
+#[cfg(all(kani, feature = "c09"))]
+pub mod c09;
+#[cfg(all(kani, feature = "c11"))]
+pub mod c11;
+#[cfg(all(kani, feature = "c18"))]
+pub mod c18;
 #[cfg(all(kani, feature = "c14"))]
 pub mod c14;
 
